@@ -16,7 +16,8 @@ RULE = ("two surface positions <= 0.2 NM apart (30% identical) encoded with the 
         "either side of the equator), longitude dense within 0.5 deg of 0/+-90/+-180 (receiver on either side), and at NL transitions; "
         "oracle: position()/surface_position() within one quantisation step of the newer frame's encoded position, None only if the "
         "reference NL of the two encoded latitudes differ; missing reference -> RuntimeError. non-trivial = receiver and target on "
-        "opposite sides of the equator / lon 0 / +-180, or latitude within 0.02 deg of a transition")
+        "opposite sides of the equator / lon 0 / +-180, or latitude within 0.02 deg of a transition"
+        ' Also: int / float / datetime time stamps (incl. a DST gap), hex letter case, receivers configured in whole degrees as ints, the same strings re-decoded with exchanged time stamps.')
 ASSUMPTIONS = ["msg0 is the even frame and msg1 the odd frame, as documented", "receiver within 45 NM great-circle of both targets and < 45 deg of longitude away",
                "pairs with an encoded latitude within 1e-9 deg of an NL transition are counted, not judged"]
 
